@@ -79,12 +79,15 @@ CFGS = {
     'bad_srq8_explicit': (MINMAX, C(T(8, False), T(8, True, GR.CHANNELWISE), CP.INTEGER, True)),
     'bad_srq8_wasym': (MINMAX, C(T(8, False), T(8, False, GR.CHANNELWISE), CP.INTEGER)),
     'bad_fp16_bits8': (FLOATCAST, C(None, T(8, True, dtype=DT.FLOAT), CP.FLOAT, True)),
+    # only reachable with skip_checks (advanced users): block-wise weights, realised by operator replacement
+    'x_blk8_b2': (MINMAX, C(None, T(8, True, GR.BLOCKWISE, block_size=2), CP.INTEGER, skip_checks=True)),
+    'x_blk8wo_b2': (MINMAX, C(None, T(8, True, GR.BLOCKWISE, block_size=2), CP.FLOAT, True, skip_checks=True)),
 }
 SRQ = [k for k in CFGS if k.startswith('srq')]
 DRQ = [k for k in CFGS if k.startswith('drq')]
 WO = [k for k in CFGS if k.startswith('wo')]
 FLOAT_COMPUTE = DRQ + WO + ['fp16']
-GOOD = [k for k in CFGS if not k.startswith('bad')]
+GOOD = [k for k in CFGS if not k.startswith('bad') and not k.startswith('x_')]
 # same stored weights (bit width, symmetry, granularity), different compute mode: the bytes of a tied constant can be shared
 SAME_WEIGHT_FAMILIES = [['drq8_cw', 'wo8s_cw'], ['drq8_tw', 'wo8s_tw'], ['drq4_cw', 'wo4s_cw']]
 
